@@ -488,6 +488,141 @@ func runC18(c *Ctx) {
 		ok := numTest && parentTest
 		c.Check(fname(sc)+"#insert-after-order-tests", fw.Instr.Pos(), ok, ifelse(ok, "number and parent-hash mismatches leave the loop before the insertion", fmt.Sprintf("headers are scheduled without the chain-order tests (number=%v parent=%v): blocks can be fetched and delivered out of order", numTest, parentTest)))
 	}
+
+	// ------------------------------------------------------------ Y8
+	c.Rule("C18.Y8", "GATE", "buffer sizes are never computed from unchecked peer data: a SkeletonHeader — whose Number the queue turns into request counts and buffer lengths by unsigned subtraction (ScheduleSkeleton) — is built from a header only on paths that compared that header's number with a locally computed value (equality with the requested position for a peer's reply; an ordering test against the range start for the verified anchor header); and (*queue).DeliverHeaders reads headers[0] only where the batch is known to be non-empty. One skeleton reply with an out-of-range number otherwise wraps the subtraction: makeslice or an index panics in a goroutine without recover and the node dies")
+	c.Min(2)
+	{
+		skNum := w.Field(dlPkg, "SkeletonHeader", "Number")
+		nSk := 0
+		for _, fn := range w.FuncsIn(dlPkg) {
+			if fn.Blocks == nil || strings.HasSuffix(w.fileOf(fn.Pos()), "_test.go") {
+				continue
+			}
+			for _, fw := range fieldWrites(fn) {
+				if fw.Field != skNum {
+					continue
+				}
+				st, ok := fw.Instr.(*ssa.Store)
+				if !ok {
+					continue
+				}
+				// the value comes from a header's Number?
+				var numLoad ssa.Value
+				backward(st.Val, func(v ssa.Value) bool {
+					if f, _ := loadedField(v); f != nil && f.Name() == "Number" && fieldOwner(w, f) == "Header" {
+						numLoad = v
+						return false
+					}
+					return numLoad == nil
+				})
+				if numLoad == nil {
+					continue
+				}
+				nSk++
+				c.sites++
+				c.sawFunc(fname(fn))
+				checked := false
+				for _, a := range atomsOf(factsAtInstr(st)) {
+					if a.Kind != "eq" || !a.Truth || a.Y == nil {
+						continue
+					}
+					for _, pair := range [][2]ssa.Value{{a.X, a.Y}, {a.Y, a.X}} {
+						isNum := derivesFrom(pair[0], func(v ssa.Value) bool {
+							f, _ := loadedField(v)
+							return f != nil && f.Name() == "Number" && fieldOwner(w, f) == "Header" && samePath(v, numLoad)
+						})
+						local := !derivesFrom(pair[1], func(v ssa.Value) bool {
+							f, _ := loadedField(v)
+							return f != nil && f.Name() == "Number" && fieldOwner(w, f) == "Header" && samePath(v, numLoad)
+						})
+						if isNum && local {
+							checked = true
+						}
+					}
+				}
+				// an ordering test against a local value (a verified anchor header's number against the range start) is a check too
+				for _, a := range atomsOf(factsAtInstr(st)) {
+					if a.Kind != "cmp" || a.Y == nil {
+						continue
+					}
+					for _, pair := range [][2]ssa.Value{{a.X, a.Y}, {a.Y, a.X}} {
+						isNum := derivesFrom(pair[0], func(v ssa.Value) bool {
+							f, _ := loadedField(v)
+							return f != nil && f.Name() == "Number" && fieldOwner(w, f) == "Header" && samePath(v, numLoad)
+						})
+						other := !derivesFrom(pair[1], func(v ssa.Value) bool {
+							f, _ := loadedField(v)
+							return f != nil && f.Name() == "Number" && fieldOwner(w, f) == "Header" && samePath(v, numLoad)
+						})
+						if isNum && other {
+							checked = true
+						}
+					}
+				}
+				c.Check(fmt.Sprintf("%s#skeleton-number-checked-%d", fname(fn), nSk), st.Pos(), checked, ifelse(checked, "the header's number was compared with the expected position", "a skeleton entry takes its number from a peer's header without that number having been compared with the position that was requested: ScheduleSkeleton computes request counts and the result buffer length from it by unsigned subtraction — a number below the range start wraps, and the node panics in the header fetcher goroutine"))
+			}
+		}
+		if nSk == 0 {
+			c.Undecided(dlPkg+"#skeleton-construction", token.NoPos, "no SkeletonHeader built from a header's number was found")
+		}
+		dh := w.Fn(dlPkg, "queue", "DeliverHeaders")
+		c.sawFunc(fname(dh))
+		var hdrsP *ssa.Parameter
+		for _, prm := range dh.Params {
+			if _, isSl := prm.Type().Underlying().(*types.Slice); isSl {
+				hdrsP = prm
+			}
+		}
+		nIdx := 0
+		for _, b := range dh.Blocks {
+			for _, in := range b.Instrs {
+				ia, ok := in.(*ssa.IndexAddr)
+				if !ok || hdrsP == nil || stripConvNoBind(ia.X) != ssa.Value(hdrsP) {
+					continue
+				}
+				if k, isC := constInt(ia.Index); !isC || k != 0 {
+					continue
+				}
+				nIdx++
+				c.sites++
+				nonEmpty := false
+				for _, a := range atomsOf(factsAt(b)) {
+					lenOf := func(v ssa.Value) bool {
+						cc, isCall := stripConv(v).(*ssa.Call)
+						if !isCall {
+							return false
+						}
+						bi, isB := cc.Call.Value.(*ssa.Builtin)
+						return isB && bi.Name() == "len" && stripConvNoBind(cc.Call.Args[0]) == ssa.Value(hdrsP)
+					}
+					switch a.Kind {
+					case "cmp":
+						if lenOf(a.X) {
+							if n, isC := constInt(a.Y); isC && ((a.Op == token.GTR && n >= 0 && a.Truth) || (a.Op == token.GEQ && n >= 1 && a.Truth) || (a.Op == token.LEQ && n >= 0 && !a.Truth) || (a.Op == token.LSS && n >= 1 && !a.Truth)) {
+								nonEmpty = true
+							}
+						}
+					case "eq":
+						// len(headers) == request.Count, where every request count is positive by construction (Y8 above)
+						if a.Truth && a.Y != nil && (lenOf(a.X) || lenOf(a.Y)) {
+							other := a.Y
+							if lenOf(a.Y) {
+								other = a.X
+							}
+							if f, _ := loadedField(stripConv(other)); f != nil && f.Name() == "Count" {
+								nonEmpty = nSk > 0
+							}
+							if n, isC := constInt(other); isC && n > 0 {
+								nonEmpty = true
+							}
+						}
+					}
+				}
+				c.Check(fmt.Sprintf("%s#first-header-read-only-if-present-%d", fname(dh), nIdx), ia.Pos(), nonEmpty, ifelse(nonEmpty, "under len(headers) == request.Count (counts are positive because skeleton numbers are checked) or an explicit length test", "headers[0] is read without the batch being known non-empty"))
+			}
+		}
+	}
 }
 
 func blockReaches(from, to *ssa.BasicBlock) bool {
